@@ -209,24 +209,45 @@ enum Outcome {
     Hang(&'static str),
 }
 
-/// every case runs in a worker thread with a wall-clock bound: a non-terminating call is
-/// reported (the thread is abandoned), not waited for
-fn observe_bounded(g: &G, s: usize, t: usize, with_flow: bool, bound: Duration) -> Outcome {
-    let (tx, rx) = mpsc::channel();
-    let stage = Arc::new(AtomicUsize::new(0));
-    let (g2, st2) = (g.clone(), stage.clone());
-    std::thread::spawn(move || {
-        let r = std::panic::catch_unwind(std::panic::AssertUnwindSafe(|| observe(&g2, s, t, with_flow, &st2)));
-        let _ = tx.send(r);
-    });
-    match rx.recv_timeout(bound) {
-        Ok(Ok(Ok(o))) => Outcome::Obs(o),
-        Ok(Ok(Err(e))) => Outcome::Bad(e),
-        Ok(Err(p)) => Outcome::Panic(
-            p.downcast_ref::<String>().cloned().or_else(|| p.downcast_ref::<&str>().map(|s| s.to_string())).unwrap_or_else(|| "panic".into()),
-        ),
-        Err(_) => Outcome::Hang(STAGES[stage.load(Ordering::SeqCst).min(7)]),
+/// every call runs in a worker thread with a wall-clock bound: a non-terminating call is
+/// reported (the worker is abandoned and a fresh one takes over), not waited for.  One worker
+/// handles a run of cases (a thread hand-off per case costs a scheduler quantum on a busy box).
+fn observe_all(cases: &[Case], hang_seen: &mut bool, bound: Duration) -> Vec<Outcome> {
+    let mut outs: Vec<Outcome> = Vec::with_capacity(cases.len());
+    while outs.len() < cases.len() {
+        let (tx, rx) = mpsc::channel();
+        let stage = Arc::new(AtomicUsize::new(0));
+        let rest: Vec<Case> = cases[outs.len()..].to_vec();
+        let (st2, skip_self_flow) = (stage.clone(), *hang_seen);
+        std::thread::spawn(move || {
+            for c in rest {
+                let with_flow = !(c.s == c.t && skip_self_flow);
+                let r = std::panic::catch_unwind(std::panic::AssertUnwindSafe(|| observe(&c.g, c.s, c.t, with_flow, &st2)));
+                if tx.send(r).is_err() {
+                    return;
+                }
+            }
+        });
+        loop {
+            if outs.len() == cases.len() {
+                break;
+            }
+            match rx.recv_timeout(bound) {
+                Ok(Ok(Ok(o))) => outs.push(Outcome::Obs(o)),
+                Ok(Ok(Err(e))) => outs.push(Outcome::Bad(e)),
+                Ok(Err(p)) => outs.push(Outcome::Panic(
+                    p.downcast_ref::<String>().cloned().or_else(|| p.downcast_ref::<&str>().map(|s| s.to_string())).unwrap_or_else(|| "panic".into()),
+                )),
+                Err(mpsc::RecvTimeoutError::Timeout) => {
+                    outs.push(Outcome::Hang(STAGES[stage.load(Ordering::SeqCst).min(7)]));
+                    *hang_seen = true;
+                    break; // abandon this worker
+                }
+                Err(mpsc::RecvTimeoutError::Disconnected) => break,
+            }
+        }
     }
+    outs
 }
 
 fn parse_fields(reply: &str) -> Option<BTreeMap<String, String>> {
@@ -309,17 +330,27 @@ fn signature(g: &G, s: usize, t: usize, field: &str) -> String {
     }
 }
 
+fn trace(msg: &str) {
+    if std::env::var("VERIF_TRACE").is_ok() {
+        eprintln!("[c26 {:?}] {}", std::time::SystemTime::now().duration_since(std::time::UNIX_EPOCH).map(|d| d.as_secs()).unwrap_or(0), msg);
+    }
+}
+
 fn eval_cases(cx: &mut Ctx, exe: &std::path::Path, cases: &[Case], bound: Duration) {
+    trace(&format!("eval_cases {} start", cases.len()));
     // 1. implementation
+    let n_self_before = cx.hang_seen;
+    let raw = observe_all(cases, &mut cx.hang_seen, bound);
     let mut outs: Vec<Option<BTreeMap<String, String>>> = vec![];
-    for c in cases {
-        let with_flow = !(c.s == c.t && cx.hang_seen);
-        if !with_flow {
-            cx.rep.count("flow_s_eq_t_skipped_after_hang");
-        }
+    for (c, r) in cases.iter().zip(raw.into_iter()) {
         let body = format!("case {} {} {}", c.g.text(), c.s, c.t);
-        match observe_bounded(&c.g, c.s, c.t, with_flow, bound) {
-            Outcome::Obs(o) => outs.push(Some(o)),
+        match r {
+            Outcome::Obs(o) => {
+                if c.s == c.t && c.g.n > 0 && !o.contains_key("flow") {
+                    cx.rep.count("flow_s_eq_t_skipped_after_hang");
+                }
+                outs.push(Some(o))
+            }
             Outcome::Bad(e) => {
                 cx.rep.spec_violation(&cx.known, "value-outside-integers", &format!("{} on `{}`", e, body), &body);
                 outs.push(None);
@@ -330,7 +361,6 @@ fn eval_cases(cx: &mut Ctx, exe: &std::path::Path, cases: &[Case], bound: Durati
             }
             Outcome::Hang(stage) => {
                 let sig = if stage == "flow" && c.s == c.t { "flow-source-equals-sink".to_string() } else { format!("hang-{}", stage) };
-                cx.hang_seen = true;
                 cx.rep.count(&format!("hang:{}", stage));
                 cx.rep.spec_violation(
                     &cx.known,
@@ -342,6 +372,8 @@ fn eval_cases(cx: &mut Ctx, exe: &std::path::Path, cases: &[Case], bound: Durati
             }
         }
     }
+    let _ = n_self_before;
+    trace("implementation done");
     // 2. model and specification
     let mut lines = vec![];
     for (c, o) in cases.iter().zip(outs.iter()) {
@@ -352,6 +384,7 @@ fn eval_cases(cx: &mut Ctx, exe: &std::path::Path, cases: &[Case], bound: Durati
         }
     }
     let replies = driver::par_batch(exe, &lines, 12);
+    trace("driver done");
     let mut k = 0;
     for (c, o) in cases.iter().zip(outs.iter()) {
         let Some(o) = o else { continue };
@@ -574,7 +607,7 @@ fn rec_float(r: &samyama::query::executor::record::Record, col: &str) -> Option<
     r.get(col)?.as_property()?.as_float()
 }
 
-fn eval_store(cx: &mut Ctx, exe: &std::path::Path, d: &StoreDesc, rng: &mut Rng) {
+fn eval_store(cx: &mut Ctx, drv: &mut driver::Driver, d: &StoreDesc, rng: &mut Rng) {
     let (store, ids) = build_store(d);
     let desc_txt = format!("{:?}", d);
     for (label, ty, weighted) in [(None, None, false), (None, None, true), (Some("A"), Some("R"), false), (Some("A"), None, true), (Some("B"), Some("S"), true)] {
@@ -600,7 +633,7 @@ fn eval_store(cx: &mut Ctx, exe: &std::path::Path, d: &StoreDesc, rng: &mut Rng)
             cx.rep.spec_violation(&cx.known, "projection-node-set", &format!("build_view selected nodes {:?}, the label filter selects {:?}", got_nodes, want_nodes), &body);
             continue;
         }
-        let reply = driver::batch(exe, &[format!("proj {} {} {} {}", stxt, lcode, tcode, weighted as u8)]).remove(0);
+        let reply = drv.ask(&format!("proj {} {} {} {}", stxt, lcode, tcode, weighted as u8));
         let Some(mg) = reply.strip_prefix("ok ").and_then(G::parse) else {
             if cx.first_break.is_none() {
                 cx.first_break = Some(format!("{}\nreply {}", body, reply));
@@ -681,7 +714,11 @@ fn eval_store(cx: &mut Ctx, exe: &std::path::Path, d: &StoreDesc, rng: &mut Rng)
             }
         }
         for (f, q) in &queries {
+            if *f == "flow" && s == t {
+                continue; // single-node projection: source = sink is exercised (bounded) at crate level
+            }
             cx.rep.count(&format!("call:{}", f));
+            trace(&format!("call {} on {}", q, desc_txt));
             let recs = match call(&store, q) {
                 Ok(r) => r,
                 Err(e) => {
@@ -743,7 +780,7 @@ fn eval_store(cx: &mut Ctx, exe: &std::path::Path, d: &StoreDesc, rng: &mut Rng)
         if obs.is_empty() {
             continue;
         }
-        let sp = driver::batch(exe, &[format!("spec {} {} {} {}", mg.text(), s, t, obs.join(" "))]).remove(0);
+        let sp = drv.ask(&format!("spec {} {} {} {}", mg.text(), s, t, obs.join(" ")));
         cx.rep.case(&format!("call {} {} {} | {}", mg.text(), s, t, obs.join(" ")), mg.nontrivial());
         if let Some(fields) = sp.strip_prefix("viol ") {
             for f in fields.split(',') {
@@ -915,14 +952,15 @@ fn main() {
         cases.clear();
 
         // 4. stores through build_view and CALL algo.*
+        let mut drv = driver::Driver::spawn(&exe);
         let n_store = if args.thorough() { 600 } else { 60 };
         for _ in 0..n_store {
             let d = random_store(&mut rng);
-            eval_store(&mut cx, &exe, &d, &mut rng);
+            eval_store(&mut cx, &mut drv, &d, &mut rng);
         }
         // the shape of the witness in the property text, through the whole stack
         let d = StoreDesc { nodes: vec![1, 1, 1], edges: vec![(1, 0, 0, WKind::Int(10)), (1, 0, 0, WKind::Int(1)), (1, 2, 0, WKind::Float(4))] };
-        eval_store(&mut cx, &exe, &d, &mut rng);
+        eval_store(&mut cx, &mut drv, &d, &mut rng);
     }
 
     if let Some(body) = cx.first_break.take() {
